@@ -100,14 +100,15 @@ def parseGiven (ts : List String) : Option Given :=
 
 def parseDecoded (ts : List String) : Option Decoded :=
   match ts with
-  | code :: rest => do
+  | code :: xw :: rest => do
+    let xw ← xw.toNat?
     let (relocs, rest) ← listOf (fun ts => match ts with | [] => none | t :: r => (parseReloc t).map (·, r)) rest
     match rest with
     | mnem :: rest =>
       let (args, _) ← listOf (fun ts => match ts with | [] => none | t :: r => (parseDArg t).map (·, r)) rest
-      some ⟨code.length / 2, relocs, mnem, args⟩
+      some ⟨code.length / 2, xw, relocs, mnem, args⟩
     | [] => none
-  | [] => none
+  | _ => none
 
 def trimLeft (cs : List Char) : List Char := cs.dropWhile (fun c => c == ' ' || c == '\t')
 
